@@ -230,6 +230,113 @@ Definition combine_modules (same_strand : bool) (current previous : list module)
   | _, _ => unchanged
   end.
 
+(* ---------- the property as a decidable specification over a module's component list ---------- *)
+(* independent of the slots and of the order in which add_component takes its decisions *)
+Definition c_xstarter c := c_starter c && negb (c_loader c).       (* an explicit starter *)
+Definition c_atd c := lab c =? c14_L_Trans_AT_docking.
+Definition cnt (f : comp -> bool) (cs : list comp) : nat := length (filter f cs).
+(* what follows the first component satisfying f *)
+Fixpoint after_first (f : comp -> bool) (cs : list comp) : list comp :=
+  match cs with [] => [] | c :: r => if f c then r else after_first f r end.
+
+(* trans-AT as far as the components say: PKS, a starter but no loader, and the starter is a
+   Trans-AT-KS or a Trans-AT docking domain is present *)
+Definition spec_trans_at (cs : list comp) : bool :=
+  existsb c_pks cs && negb (existsb c_loader cs) &&
+  match find c_starter cs with Some s => (sub s =? 1) || existsb c_atd cs | None => false end.
+
+(* an explicit starter only in front *)
+Definition L_starter (cs : list comp) : bool := forallb (fun c => negb (c_xstarter c)) (tl cs).
+Definition L_loader (cs : list comp) : bool := (cnt c_loader cs <=? 1)%nat.
+(* no NRPS loader on a PKS starter or vice versa *)
+Definition L_mix (cs : list comp) : bool :=
+  match find c_starter cs, find c_loader cs with
+  | Some s, Some l => negb ((c_pks s && c_nrps l) || (c_nrps s && c_pks l))
+  | _, _ => true
+  end.
+(* one terminating domain, nothing but special domains after it *)
+Definition L_end (cs : list comp) : bool :=
+  (cnt c_end cs <=? 1)%nat && forallb c_special (after_first c_end cs).
+(* carrier proteins: every carrier protein after the first must be directly followed by a registered
+   pair (DOUBLE_TRANSPORTER_CASES), whose members are the only modification domains allowed after a
+   carrier protein besides the trans-AT KR.  Read left to right: *)
+(* the components since the last one satisfying f *)
+Definition since_last (f : comp -> bool) (cs : list comp) : list comp :=
+  fold_left (fun acc c => if f c then [] else acc ++ [c]) cs [].
+Definition case_prefix (ls : list Z) : bool :=
+  existsb (fun case => zlist_eqb ls (firstn (length ls) case)) c14_double_transporter_cases.
+Definition max_case_len : nat := fold_right Nat.max 0%nat (map (@length Z) c14_double_transporter_cases).
+(* after pre, the pair owed to an extra carrier protein is still incomplete *)
+Definition pair_open (pre : list comp) : bool :=
+  (2 <=? cnt c_cp pre)%nat && (length (since_last c_cp pre) <? max_case_len)%nat.
+(* ... then the next component must continue a registered pair *)
+Definition pair_step (pre : list comp) (c : comp) : bool :=
+  negb (pair_open pre) || case_prefix (map lab (since_last c_cp pre ++ [c])).
+(* a modification with a carrier protein before it is a KR in a trans-AT module or part of such a pair *)
+Definition mod_ok (pre : list comp) (c : comp) : bool :=
+  negb (c_mod c) || negb (existsb c_cp pre) || (c_kr c && spec_trans_at pre) || pair_open pre.
+Fixpoint walk (pre cs : list comp) : bool :=
+  match cs with [] => true | c :: r => pair_step pre c && mod_ok pre c && walk (pre ++ [c]) r end.
+Definition L_pairs (cs : list comp) : bool := walk [] cs && negb (pair_open cs).
+(* the documented exception is a DOUBLE transporter: no more than two carrier proteins *)
+Definition L_cp_strict (cs : list comp) : bool := (cnt c_cp cs <=? 2)%nat.
+
+(* what the code guarantees (C14_layout_inv) ... *)
+Definition layout_weak (cs : list comp) : bool :=
+  L_starter cs && L_loader cs && L_mix cs && L_end cs && L_pairs cs.
+(* ... and the property: in addition at most one carrier protein, two in the double-transporter case *)
+Definition layout_spec (cs : list comp) : bool := layout_weak cs && L_cp_strict cs.
+
+(* the slots and flags are functions of the component list *)
+Definition opt_ideqb (a b : option comp) : bool :=
+  match a, b with
+  | Some x, Some y => cid x =? cid y
+  | None, None => true
+  | _, _ => false
+  end.
+Definition ids_eqb (a b : list comp) : bool := list_eqb Z.eqb (map cid a) (map cid b).
+Definition others_spec (cs : list comp) : list comp :=
+  filter (fun c => negb (c_starter c || c_mod c || c_end c) && negb (same_comp (Some c) (find c_cp cs))) cs.
+Definition complete_spec (m : module) : bool :=
+  (isSome (m_starter m) && isSome (m_loader m) && isSome (m_cp m)
+   && negb (same_comp (m_starter m) (m_loader m) && negb (m_first m)))
+  || (spec_trans_at (m_comps m) && isSome (m_cp m)).
+
+Definition flags_of (m : module) : list Z :=
+  eBool (is_complete m) ++ eBool (is_trans_at m) ++ eBool (is_pks m)
+  ++ eBool (is_nrps m) ++ eBool (is_starter_module m) ++ eBool (is_termination_module m)
+  ++ eBool (is_iterative m).
+
+(* a module as decoded from the implementation's output, with its reported flags *)
+Definition spec_module_gen (strict : bool) (mf : module * list Z) : bool :=
+  let (m, fl) := mf in
+  let cs := m_comps m in
+  nonempty cs && forallb (fun c => negb (c_ignored c)) cs
+  && (if strict then layout_spec cs else layout_weak cs)
+  && opt_ideqb (m_starter m) (find c_starter cs) && opt_ideqb (m_loader m) (find c_loader cs)
+  && opt_ideqb (m_cp m) (find c_cp cs) && opt_ideqb (m_end m) (find c_end cs)
+  && ids_eqb (m_mods m) (filter c_mod cs) && ids_eqb (m_others m) (others_spec cs)
+  && list_eqb Z.eqb fl (flags_of m)
+  && match fl with
+     | complete :: trans_at :: _ =>
+       (complete =? (if complete_spec m then 1 else 0)) && (trans_at =? (if spec_trans_at cs then 1 else 0))
+     | _ => false
+     end.
+
+Definition spec_module_ok := spec_module_gen true.
+
+Definition flat_ids (ms : list (module * list Z)) : list Z :=
+  map cid (concat (map (fun mf => m_comps (fst mf)) ms)).
+Definition kept_ids (ds : list comp) : list Z :=
+  map cid (filter (fun c => negb (c_ignored c)) (sort_comps ds)).
+Definition firsts_ok (ms : list (module * list Z)) : bool :=
+  match ms with [] => true | mf :: r => m_first (fst mf) && forallb (fun x => negb (m_first (fst x))) r end.
+
+(* build_modules_for_cds: the modules partition the sorted non-docking domains, each obeys the rules *)
+Definition spec_build_gen (strict : bool) (ds : list comp) (ms : list (module * list Z)) : bool :=
+  list_eqb Z.eqb (flat_ids ms) (kept_ids ds) && forallb (spec_module_gen strict) ms && firsts_ok ms.
+Definition spec_build := spec_build_gen true.
+
 (* ---------- encoding ---------- *)
 Definition dComp : dec comp := fun l =>
   match l with a :: b :: c :: d :: r => Some (mkComp a b c d, r) | _ => None end.
@@ -244,6 +351,103 @@ Definition eModule (m : module) : list Z :=
   ++ eBool (is_iterative m).
 Definition eModules (ms : list module) : list Z := eList eModule ms.
 
+(* decoding of the implementation's modules (component ids refer to the input domains) *)
+Definition lookup (ds : list comp) (i : Z) : option comp := find (fun c => cid c =? i) ds.
+Fixpoint lookups (ds : list comp) (ids : list Z) : option (list comp) :=
+  match ids with
+  | [] => Some []
+  | i :: r => match lookup ds i, lookups ds r with Some c, Some cs => Some (c :: cs) | _, _ => None end
+  end.
+Definition dIds (ds : list comp) : dec (list comp) := fun l =>
+  match dList dZ l with
+  | Some (ids, r) => match lookups ds ids with Some cs => Some (cs, r) | None => None end
+  | None => None
+  end.
+Definition dSlot (ds : list comp) : dec (option comp) := fun l =>
+  match l with
+  | i :: r => if i =? -1 then Some (None, r)
+              else match lookup ds i with Some c => Some (Some c, r) | None => None end
+  | [] => None
+  end.
+Definition dModule (ds : list comp) : dec (module * list Z) := fun l =>
+  match dIds ds l with Some (cs, l1) =>
+  match dSlot ds l1 with Some (st, l2) =>
+  match dSlot ds l2 with Some (lo, l3) =>
+  match dSlot ds l3 with Some (cp, l4) =>
+  match dSlot ds l4 with Some (en, l5) =>
+  match dIds ds l5 with Some (mods, l6) =>
+  match dIds ds l6 with Some (oth, l7) =>
+  match l7 with
+  | f :: a :: b :: c :: d :: e :: g :: h :: r =>
+    Some ((mkModule cs st lo mods cp en oth (negb (f =? 0)) 0, [a; b; c; d; e; g; h]), r)
+  | _ => None
+  end
+  | None => None end | None => None end | None => None end | None => None end
+  | None => None end | None => None end | None => None end.
+Definition eDM (mf : module * list Z) : list Z :=
+  let (m, fl) := mf in
+  eIds (m_comps m) ++ eOptComp (m_starter m) ++ eOptComp (m_loader m) ++ eOptComp (m_cp m)
+  ++ eOptComp (m_end m) ++ eIds (m_mods m) ++ eIds (m_others m) ++ eBool (m_first m) ++ fl.
+Definition eDMs (ms : list (module * list Z)) : list Z := eList eDM ms.
+
+(* spec verdicts on an implementation output: [1] satisfied, [0] violated, [-1] output undecodable *)
+(* [2]: only the clause "no more than two carrier proteins" fails (finding class 1) *)
+Definition verdict (b : bool) : list Z := [if b then 1 else 0].
+Definition verdict2 (f : bool -> bool) : list Z := [if f true then 1 else if f false then 2 else 0].
+Definition undecodable : list Z := [-1].
+
+Definition spec_fn1 (ds : list comp) (out : list Z) : list Z :=
+  match out with
+  | 0 :: r => match dList (dModule ds) r with
+              | Some (ms, []) => verdict2 (fun strict => spec_build_gen strict ds ms)
+              | _ => undecodable end
+  | _ => verdict false          (* module construction must not fail *)
+  end.
+(* output = original modules followed by the reloaded ones *)
+Definition spec_fn2 (ds : list comp) (out : list Z) : list Z :=
+  match out with
+  | 0 :: r => match dList (dModule ds) r with
+              | Some (ms, r2) =>
+                match dList (dModule ds) r2 with
+                | Some (ms2, []) => verdict2 (fun strict => spec_build_gen strict ds ms && list_eqb Z.eqb (eDMs ms) (eDMs ms2))
+                | _ => undecodable end
+              | _ => undecodable end
+  | _ => verdict false
+  end.
+(* output = merged?, previous', current', reload of previous' *)
+Definition spec_fn3 (prev cur : list comp) (same : bool) (out : list Z) : list Z :=
+  let ds := prev ++ cur in
+  match out with
+  | 0 :: r =>
+    match dOpt (dModule ds) r with
+    | Some (om, r1) =>
+      match dList (dModule ds) r1 with
+      | Some (p, r2) =>
+        match dList (dModule ds) r2 with
+        | Some (c, r3) =>
+          let common strict := forallb (spec_module_gen strict) p && forallb (spec_module_gen strict) c
+                        && list_eqb Z.eqb (flat_ids p ++ flat_ids c) (kept_ids prev ++ kept_ids cur) in
+          let reload_ok :=
+            match r3 with
+            | 0 :: r4 => match dList (dModule ds) r4 with
+                         | Some (p2, []) => list_eqb Z.eqb (eDMs p) (eDMs p2)
+                         | _ => false end
+            | _ => false
+            end in
+          match om with
+          | None => verdict2 (fun strict => common strict && reload_ok && spec_build_gen strict prev p && spec_build_gen strict cur c)
+          | Some mf =>
+            verdict2 (fun strict => common strict && reload_ok && same
+                     && (length (kept_ids prev) <=? length (flat_ids p))%nat
+                     && match last_opt p with Some l => list_eqb Z.eqb (eDM l) (eDM mf) | None => false end
+                     && match snd mf with complete :: _ => complete =? 1 | [] => false end)
+          end
+        | None => undecodable end
+      | None => undecodable end
+    | None => undecodable end
+  | _ => verdict false          (* combine_modules must not fail *)
+  end.
+
 Definition run_C14 (fn : Z) (l : list Z) : list Z :=
   match fn with
   | 1 => match dList dComp l with
@@ -252,7 +456,8 @@ Definition run_C14 (fn : Z) (l : list Z) : list Z :=
   | 2 => (* build then reload every module *)
          match dList dComp l with
          | Some (cs, []) =>
-           eRes eModules (do ms <- build_modules_for_cds cs; mapM reload ms)
+           eRes (fun r => eModules (fst r) ++ eModules (snd r))
+                (do ms <- build_modules_for_cds cs; do ms2 <- mapM reload ms; Ok (ms, ms2))
          | _ => bad_input end
   | 3 => (* two genes: previous, current, same strand flag *)
          match dPair (dPair (dList dComp) (dList dComp)) dBool l with
@@ -264,5 +469,12 @@ Definition run_C14 (fn : Z) (l : list Z) : list Z :=
                  do c <- build_modules_for_cds cur;
                  combine_modules same c p)
          | _ => bad_input end
+  (* 11-13: the specification evaluated on the implementation's output (payload ++ output) *)
+  | 11 | 12 => match dList dComp l with
+               | Some (cs, out) => if fn =? 11 then spec_fn1 cs out else spec_fn2 cs out
+               | _ => bad_input end
+  | 13 => match dPair (dPair (dList dComp) (dList dComp)) dBool l with
+          | Some ((prev, cur, same), out) => spec_fn3 prev cur same out
+          | _ => bad_input end
   | _ => bad_input
   end.
